@@ -54,6 +54,20 @@ class Ctx:
         self.assumptions = []
         self.notes = []
         self.tlc_n = 0
+        self.replay = None
+        self.input_of = None
+
+    def replay_input(self):
+        """The 'input' object of the replay file given with --replay (None when not replaying)."""
+        if not self.replay:
+            return None
+        with open(self.replay) as fh:
+            rec = json.load(fh)
+        if rec.get("property") != self.prop:
+            raise Inconclusive("replay file belongs to %s" % rec.get("property"))
+        if "input" not in rec:
+            raise Inconclusive("replay file carries no input")
+        return rec["input"]
 
     def quick(self):
         return self.tier == "quick"
@@ -338,8 +352,14 @@ def finish(ctx, traces_validated, rule=None, exhaustive=False, level="model_chec
     seen = set()
     nviol = 0
     for rj in violations:
-        body = json.dumps({"property": ctx.prop, "why": rj.get("why"), "detail": rj.get("detail"),
-                           "trace_line": rj.get("trace_line")}, sort_keys=True)
+        rec = {"property": ctx.prop, "why": rj.get("why"), "detail": rj.get("detail"),
+               "trace_line": rj.get("trace_line")}
+        if getattr(ctx, "input_of", None):
+            try:
+                rec["input"] = ctx.input_of(rj)
+            except Exception as e:  # the replay input is a convenience, never a reason to fail
+                rec["input_error"] = str(e)
+        body = json.dumps(rec, sort_keys=True)
         h = hashlib.sha1(body.encode()).hexdigest()[:12]
         if h in seen:
             continue
